@@ -50,7 +50,7 @@ def handlers : List (String × (List String → List String → Option Verdict))
   ("d10", Driver.Dialer.d10), ("d11", Driver.Dialer.d11), ("sld", Driver.Dialer.sld), ("rd", Driver.Dialer.rd), ("rdm", Driver.Dialer.rdm), ("sc", Driver.Sysctl.sc), ("ns", Driver.Netns.ns), ("nsw", Driver.Netns.nsw), ("nsa", Driver.Netns.nsa), ("nsb", Driver.Netns.nsb), ("scc", Driver.Sysctl.scc),
   ("srv", Driver.C20Serve.srv), ("http", Driver.C20Serve.http), ("grp", Driver.C10.grp), ("grpq", Driver.C10Q.grpq),
   ("pth", Driver.C04.pth),
-  ("scr", Driver.C17.scr), ("cgs", Driver.C17.cgs), ("api", Driver.C17.api), ("rt", Driver.C17.rt), ("rtd", Driver.C17.rtd), ("rp", Driver.C17.rp),
+  ("scr", Driver.C17.scr), ("cgs", Driver.C17.cgs), ("api", Driver.C17.api), ("rt", Driver.C17.rt), ("rtd", Driver.C17.rtd), ("cgx", Driver.C17.cgx), ("rp", Driver.C17.rp),
   ("pr", Driver.OSGlue.pr), ("osc", Driver.OSGlue.osc),
   ("ci", Driver.OSGlue.ci), ("li", Driver.OSGlue.li), ("nsi", Driver.OSGlue.nsi),
   ("ab", Driver.OSGlue.ab), ("rb", Driver.OSGlue.rb)
